@@ -15,6 +15,7 @@ package main
 import (
 	"bytes"
 	"sync"
+	"sync/atomic"
 	"context"
 	"encoding/binary"
 	"errors"
@@ -130,6 +131,7 @@ type caseIn struct {
 	Shape     string `json:"shape"`
 	UseCloser bool   `json:"use_closer"` // LocalConnCloser configured
 	Order     string `json:"order"`      // halfclose mode: "peer-first" | "local-first"
+	Dialog    []stepIn `json:"dialog"`   // dialog mode
 }
 
 type markIn struct {
@@ -184,6 +186,8 @@ type caseOut struct {
 	Sent      int64  `json:"sent"` // BytesSentCounter / BytesReceivedCounter after the run (gated, fwdcut)
 	Recv      int64  `json:"recv"`
 
+	Skipped bool   `json:"skipped,omitempty"` // not run: the hang budget of this harness invocation was used up
+	Steps  []stepObs `json:"steps,omitempty"` // dialog mode
 	Hashes bool    `json:"hashes"`          // tid mode: this tree derives long wire ids from the whole string
 	Ids   []string `json:"ids,omitempty"`   // tid mode: TunnelIDFromString(s) hex
 	Backs []string `json:"backs,omitempty"` // tid mode: TunnelIDToString(id) hex
@@ -204,6 +208,25 @@ func hmust(err error) {
 
 var failMu sync.Mutex
 
+// ---- watchdogs: no wait of this harness is unbounded, and a tree on which everything hangs must not cost the full
+// per-wait timeout thousands of times.  After two hang-type failures in this process (or with VERIF_C10_FASTHANG set, as
+// the driver does while shrinking) every wait is capped at 700 ms; after 90 s spent in hanging cases the remaining
+// cases of this invocation are skipped (reported as skipped, never as passed checks of the predicate).
+var hangCount int32
+var hangSpentNs int64
+var fastHang = os.Getenv("VERIF_C10_FASTHANG") != ""
+
+func isHangKey(key string) bool {
+	return strings.Contains(key, "hang") || strings.Contains(key, "not-delivered")
+}
+func hangWait(d time.Duration) time.Duration {
+	if (fastHang || atomic.LoadInt32(&hangCount) >= 2) && d > 700*time.Millisecond {
+		return 700 * time.Millisecond
+	}
+	return d
+}
+func watchdog(d time.Duration) <-chan time.Time { return time.After(hangWait(d)) }
+
 // safeReadFrame: one ReadFrameFromReader call under recover (the property says bad input is REJECTED, never a panic)
 func safeReadFrame(r io.Reader) (tid [16]byte, ty byte, data []byte, err error, panicked interface{}) {
 	defer func() {
@@ -219,6 +242,9 @@ func (o *caseOut) fail(key, format string, args ...interface{}) {
 	failMu.Lock()
 	defer failMu.Unlock()
 	if o.PropOK {
+		if isHangKey(key) {
+			atomic.AddInt32(&hangCount, 1)
+		}
 		o.PropOK = false
 		o.PropKey = key
 		o.PropMsg = fmt.Sprintf(format, args...)
@@ -471,7 +497,12 @@ func tcpPairLinger(rst bool) (*net.TCPConn, *net.TCPConn) {
 	}()
 	a, err := net.DialTCP("tcp", nil, listener.Addr().(*net.TCPAddr))
 	hmust(err)
-	r := <-ch
+	var r res
+	select {
+	case r = <-ch:
+	case <-watchdog(10 * time.Second):
+		panic(harnessErr("loopback accept did not complete"))
+	}
 	hmust(r.err)
 	a.SetNoDelay(true)
 	// close with RST instead of FIN/TIME_WAIT: thousands of short-lived loopback connections per run must not
@@ -655,7 +686,7 @@ func runReader(c *caseIn, wire []byte, dribble []int, limit int) readRes {
 	var rr readRes
 	select {
 	case rr = <-rdone:
-	case <-time.After(30 * time.Second):
+	case <-watchdog(30 * time.Second):
 		rr = readRes{term: "hang"}
 	}
 	b.Close()
@@ -894,7 +925,7 @@ func runConc(c *caseIn, out *caseOut) {
 	var rr readRes
 	select {
 	case rr = <-rdone:
-	case <-time.After(30 * time.Second):
+	case <-watchdog(30 * time.Second):
 		rr = readRes{term: "hang"}
 	}
 	b.Close()
@@ -971,7 +1002,7 @@ func runFwd(c *caseIn, out *caseOut) {
 		got, err := io.ReadAll(appA)
 		adone <- res{got, err}
 	}()
-	deadline := time.After(10 * time.Second)
+	deadline := watchdog(10 * time.Second)
 	var ra, rb res
 	okA, okB := false, false
 	fwd := 0
@@ -1074,6 +1105,16 @@ func runCase(raw json.RawMessage) (res interface{}) {
 	var c caseIn
 	hmust(json.Unmarshal(raw, &c))
 	out := &caseOut{PropOK: true}
+	if atomic.LoadInt64(&hangSpentNs) > int64(90*time.Second) {
+		out.Skipped = true // hang budget of this invocation used up (see watchdogs above)
+		return out
+	}
+	t0 := time.Now()
+	defer func() {
+		if !out.PropOK && isHangKey(out.PropKey) {
+			atomic.AddInt64(&hangSpentNs, int64(time.Since(t0)))
+		}
+	}()
 	defer func() {
 		if p := recover(); p != nil {
 			if _, ok := p.(harnessErr); ok {
@@ -1105,6 +1146,8 @@ func runCase(raw json.RawMessage) (res interface{}) {
 		runFwdCut(&c, out)
 	case "halfclose":
 		runHalfClose(&c, out)
+	case "dialog":
+		runDialog(&c, out)
 	default:
 		panic("bad mode " + c.Mode)
 	}
